@@ -217,13 +217,14 @@ def seeded_scenarios(ctx, n):
             n0 = rng.choice([0, 1, 10, 10])
             ops.append(dict(op='inject', kind='tcp', v=4, src='10.0.0.9', sport=pp, dst=dstl, dport=80, flags='PA' if n0 else 'A', seqhi=nxt >> 16,
                             seqlo=nxt & 0xffff, ackofport=80, n=n0, seed=40, win=30000))
-            ops.append(dict(op='settle', ms=300))
-            ops.append(dict(op='accept', s=0, **{'as': 9}))
+            ops.append(dict(op='settle', ms=50))
+            # (state-based waits, not timed ones: a blocking accept, and a settle that first awaits a frame - both give up after 4 s)
+            ops.append(dict(op='accept', s=0, wait_ms=4000, **{'as': 9}))
             for j in range(rng.choice([1, 2])):
                 nb = rng.choice([10, 100, 500])
                 ops.append(dict(op='inject', kind='tcp', v=4, src='10.0.0.9', sport=pp, dst=dstl, dport=80, flags=rng.choice(['A', 'PA']), seqhi=nxt >> 16,
                                 seqlo=nxt & 0xffff, ackofport=80, n=nb, seed=40 + j, win=30000))
-                ops.append(dict(op='settle', ms=300))
+                ops.append(dict(op='settle', ms=50, await_ms=4000))
                 nxt = (nxt + nb) & 0xffffffff
         elif fam == 1:  # unassigned / removed / promiscuous destination
             ops += [dict(op='udp', s=0, v=4), dict(op='bind', s=0, addr='', port=5000)]
